@@ -373,11 +373,18 @@ def exec_while(interp, node, frame):
         dec0 = None
         if spec.decreases is not None:
             dec0 = _call_pred(interp, spec.decreases, _env_of(interp, frame, {}))
+        pre_val = None
+        if spec.pre is not None:
+            pre_val = _call_pred(interp, spec.pre, _env_of(interp, frame, {}))
         interp.loop_guards.append(LoopGuard(interp, frame, spec, label))
         try:
             r = interp.exec_block(node.body, frame)
         finally:
             interp.loop_guards.pop()
+        if spec.step is not None and (r is None or r[0] == 'continue'):
+            ok = interp.truth(_call_pred(interp, spec.step, _env_of(interp, frame, {'pre': pre_val}),
+                                         proving=(label + ' step', {'kind': 'loop-step'})))
+            st.oblige(label + ' step', ok, {'kind': 'loop-step'})
         if r is not None and r[0] not in ('continue',):
             if r[0] == 'break':
                 return None
@@ -493,6 +500,9 @@ def _for_symbolic(interp, node, frame, src):
         if it_cell is not None:
             it_cell.pos = wrap(i + 1)
         interp.assign(node.target, x, frame)
+        pre_val = None
+        if spec.pre is not None:
+            pre_val = _call_pred(interp, spec.pre, env(i))
         interp.loop_index_stack.append(i)
         interp.loop_guards.append(LoopGuard(interp, frame, spec, label))
         try:
@@ -500,6 +510,11 @@ def _for_symbolic(interp, node, frame, src):
         finally:
             interp.loop_index_stack.pop()
             interp.loop_guards.pop()
+        if spec.step is not None and (r is None or r[0] == 'continue'):
+            e2 = env(i + 1)
+            e2['pre'] = pre_val
+            ok = interp.truth(_call_pred(interp, spec.step, e2, proving=(label + ' step', {'kind': 'loop-step'})))
+            st.oblige(label + ' step', ok, {'kind': 'loop-step'})
         if r is not None and r[0] != 'continue':
             if r[0] == 'break':
                 return None
